@@ -22,6 +22,14 @@ Render(i) ==
                                               value |-> PropValue(i.keys[n])]],
          deposits |-> SetToSeq({ [tx |-> o[1], idx |-> o[2], state |-> i.dep[o], block |-> TrueBlock(i.dep[o]),
                                   value |-> PropValue(o)] : o \in PropOutputs })]
+    ELSE IF i.kind = "redemption" THEN
+        [kind |-> i.kind, main |-> i.main, items |-> i.items, fee |-> i.fee, shape |-> i.shape,
+         maxFee |-> MaxFeeMode(i),
+         txMaxFee |-> IF Len(i.items) > 0 THEN TxMaxFees(MaxFeeMode(i), i.fee, Len(i.items)) ELSE <<>>]
+    ELSE IF i.kind = "redemptionProposal" THEN
+        [kind |-> i.kind, main |-> i.main, scripts |-> i.scripts, pend |-> i.pend, foreign |-> i.foreign,
+         fee |-> i.fee, shape |-> i.shape, maxFee |-> i.maxFee,
+         txMaxFee |-> TxMaxFees(i.maxFee, i.fee, Len(i.scripts))]
     ELSE i
 
 Cases == { [in |-> Render(i), expected |-> Result(i)] : i \in Inputs \cup ProposalInputs }
